@@ -517,6 +517,11 @@ func (w *WAL) DeleteRange(min uint64, max uint64) error {
 	case min <= first: // max >= first implied by the first case not matching
 		// Note we allow head truncations where max > last which effectively removes
 		// the entire log.
+		if max >= last {
+			// Clamp so that max+1 can't overflow (e.g. max == math.MaxUint64) and
+			// wrap around to a new min index of 0.
+			max = last
+		}
 		return w.truncateHeadLocked(max + 1)
 
 	//    |min----max|
